@@ -386,9 +386,12 @@ def slicedShape : Dims → List SliceItem → Except Err (List Nat)
       let ir ← r.indexRange size
       pure (ir.steps :: rest)
 
-/-- `slice_copy` (rank ≤ 4): the view slice copied if `try_slice` succeeds; otherwise the
-stepped index ranges of every axis are enumerated into a buffer of `∏ sliced_shape`
-elements (`assert_eq!(dest.len(), sliced_len)` in `copy_range_into_slice_inner`). -/
+/-- `slice_copy` (any rank): the view slice copied if `try_slice` succeeds; otherwise the
+stepped index ranges of every axis are enumerated into a buffer of `∏ sliced_shape` elements.
+`copy_range_into_slice_inner` panics unless that buffer is filled exactly: for ≤ 4 axes by
+`assert_eq!(dest.len(), sliced_len)`, for more axes (since fix `2a7721f`, which also made the
+recursive branch split the buffer by the *sliced* sub-tensor length) by `split_at_mut` /
+`assert!(dest.is_empty())` around the recursion. -/
 def sliceCopy (t : TState) (items : List SliceItem) : Except Err TState :=
   match trySlice t.view items with
   | .ok v => .ok (TState.ofArr (denote v (fun i => t.store.getD i 0)))
